@@ -294,3 +294,29 @@ Example ex_key_attrs :
   | _ => False
   end.
 Proof. vm_compute. split; reflexivity. Qed.
+
+(* ---------------------------------------------------------------------------------------- *)
+(* Kernel ties: the arithmetic kernels of pkg/amd/manifest this property rests on, as TRANSCRIBED FROM
+   THE GO SOURCE on every run (translator/Kernels.sh -> Gen/GoKernels.v), equal the functions of
+   the model (Proofs/KernelTieAmd.v).  A change of one of these Go functions breaks the lemma. *)
+From Fiano Require Import Base.Bytes Base.GoInt Gen.GoKernels Proofs.KernelTieAmd.
+Local Open Scope Z_scope.
+
+Theorem C17_kernel_PhysAddrToOffset : forall img addr, go_FirmwareImage_PhysAddrToOffset img addr = Amd.phys_to_off (zlen img) addr.
+Proof. exact go_FirmwareImage_PhysAddrToOffset_tie. Qed.
+Print Assumptions C17_kernel_PhysAddrToOffset.
+
+Theorem C17_kernel_fletcherCRC32 : forall fuel data, bytes_ok data = true -> zlen data < 2 ^ 62 -> (length data < fuel)%nat ->
+  go_fletcherCRC32 fuel data = Amd.fletcher32 data.
+Proof. exact go_fletcherCRC32_tie. Qed.
+Print Assumptions C17_kernel_fletcherCRC32.
+
+Theorem C17_kernel_CalculateBiosDirectoryCheckSum : forall fuel raw, bytes_ok raw = true -> zlen raw < 2 ^ 62 -> (length raw < fuel)%nat ->
+  go_CalculateBiosDirectoryCheckSum fuel raw = Amd.dir_checksum raw.
+Proof. exact go_CalculateBiosDirectoryCheckSum_tie. Qed.
+Print Assumptions C17_kernel_CalculateBiosDirectoryCheckSum.
+
+Theorem C17_kernel_CalculatePSPDirectoryCheckSum : forall fuel raw, bytes_ok raw = true -> zlen raw < 2 ^ 62 -> (length raw < fuel)%nat ->
+  go_CalculatePSPDirectoryCheckSum fuel raw = Amd.dir_checksum raw.
+Proof. exact go_CalculatePSPDirectoryCheckSum_tie. Qed.
+Print Assumptions C17_kernel_CalculatePSPDirectoryCheckSum.
